@@ -64,7 +64,7 @@ def run_pipein(cfg, tier, seed, V, RUNNER, sub='pipein', exe='replay_pipein', na
     for pi, pr in enumerate(cfg['profiles']):
         count, scheds = pr[tier]
         d = os.path.join(logroot, '%d' % pi)
-        cmd = [RUNNER, 'run', '--seed', str(seed + 23), '--scheds', str(scheds), '--logdir', d, '--no-touch-yield', '--no-probe', '--max-steps', '30000']
+        cmd = [RUNNER, 'run', '--seed', str(seed + 23), '--scheds', str(scheds), '--logdir', d, '--no-touch-yield', '--max-steps', '30000']
         if pr['name'].startswith('progs:'): cmd += ['--progs', os.path.join(V, 'corpus', pr['name'][6:])]
         else: cmd += ['--profile', pr['name'], '--count', str(count)]
         subprocess.run(cmd, stdout=subprocess.DEVNULL, stderr=subprocess.DEVNULL, timeout=1200)
